@@ -125,6 +125,7 @@ pub struct World {
     pub workers_returned: AtomicUsize,
     pub done: AtomicBool,
     pub last_progress: AtomicU64,
+    pub monitor: Mutex<crate::sched::Monitor>,
 }
 unsafe impl Sync for World {}
 unsafe impl Send for World {}
@@ -250,6 +251,7 @@ pub fn init(cfg: Config) -> &'static World {
         workers_returned: AtomicUsize::new(0),
         done: AtomicBool::new(false),
         last_progress: AtomicU64::new(0),
+        monitor: Mutex::new(crate::sched::Monitor::new()),
     };
     if WORLD.set(w).is_err() {
         panic!("world initialised twice");
